@@ -1,15 +1,15 @@
 #!/bin/bash
-# usage: refac_eval.sh A B ...  -> apply each /tmp/refac/<X>/r*/patch.diff to /tmp/wtr/<X>, run all checks, report non-zero exits
+# usage: refac_eval.sh A B ...  -> apply each ${REFAC_DIR:-/tmp/refac}/<X>/r*/patch.diff to ${WTR_DIR:-/tmp/wtr}/<X>, run all checks, report non-zero exits
 for X in "$@"; do
-  for d in /tmp/refac/$X/r*; do
+  for d in ${REFAC_DIR:-/tmp/refac}/$X/r*; do
     [ -f $d/patch.diff ] || continue
-    git -C /tmp/wtr/$X checkout -q -- . ; git -C /tmp/wtr/$X apply $d/patch.diff || { echo "$X/$(basename $d): patch does not apply"; continue; }
+    git -C ${WTR_DIR:-/tmp/wtr}/$X checkout -q -- . ; git -C ${WTR_DIR:-/tmp/wtr}/$X apply $d/patch.diff || { echo "$X/$(basename $d): patch does not apply"; continue; }
     bad=""
     for i in 01 02 03 04 05 06 07 08 09 10 11 12 13 14 15 16 17 18 19 20; do
-      out=$(cd /verif && ./check C$i --repo /tmp/wtr/$X --no-evidence 2>&1); rc=$?
-      if [ $rc -ne 0 ]; then bad="$bad C$i($rc)"; echo "$out" | grep -E "finding|ANALYSIS-ERROR|Error" | head -3 | sed "s/^/      [C$i] /"; fi
+      out=$(cd /verif && ./check C$i --repo ${WTR_DIR:-/tmp/wtr}/$X --no-evidence 2>&1); rc=$?
+      if [ $rc -ne 0 ]; then bad="$bad C$i($rc)"; echo "$out" | grep -E "^  finding|ANALYSIS-ERROR|Traceback" | head -3 | sed "s/^/      [C$i] /"; fi
     done
     echo "$X/$(basename $d): ${bad:-all 20 checks silent}"
-    git -C /tmp/wtr/$X checkout -q -- .
+    git -C ${WTR_DIR:-/tmp/wtr}/$X checkout -q -- .
   done
 done
